@@ -104,14 +104,20 @@ func refreshScenario(r *hutil.Rng, i int) (atrun.Scenario, Meta) {
 	sc.Config.OnlyCareUpdateColumns = &onlyCare
 	meta := Meta{Stream: "clean", Table: names[0], Cols: cols, PK: []int{0}, OnlyCare: onlyCare, Extra: map[string]string{"shape": "refresh"}}
 	var body []atrun.Step
+	sure := false // after the refresh: updates that certainly match rows
 	stmt := func(tn string) {
 		t := table{name: tn, cols: cols, pk: []int{0}, nkeys: 4}
 		o := stmtOpt{where: whereOpt{depth: 1, keyBias: true}}
 		var sql string
 		var sm StmtMeta
-		if r.Chance(2, 3) {
+		switch {
+		case sure && r.Chance(3, 4):
+			lim := int64(2 + r.Intn(3))
+			sm = StmtMeta{Kind: "update", Expect: "ok", Cols: []int{1}, Sets: []SetMeta{{Col: 1, Op: "add", V: atrun.I(7)}}, Args: []atrun.Arg{atrun.I(lim)}}
+			sql = "UPDATE " + tn + " SET Val = Val + 7 WHERE k <= ?"
+		case r.Chance(2, 3):
 			sql, sm = genUpdate(r, &t, o)
-		} else {
+		default:
 			sql, sm = genDelete(r, &t, o)
 		}
 		sm.Table, sm.Step = tn, 1
@@ -135,16 +141,56 @@ func refreshScenario(r *hutil.Rng, i int) (atrun.Scenario, Meta) {
 	for _, tn := range names {
 		stmt(tn)
 	}
-	drop := r.Intn(3)
+	// Go walks a small map from a random slot of its one bucket: the first-cached table leads most walks, and only a
+	// table that is asked for BEFORE the others can shift them
+	drop := 0
+	if r.Chance(1, 2) {
+		drop = r.Intn(3)
+	}
 	body = append(body, atrun.Step{Op: "exec", Via: "bare", NoCtx: true, SQL: "DROP TABLE " + names[drop]}, atrun.Step{Op: "meta_real_refresh"})
 	meta.Extra["dropped"] = names[drop]
+	sure = true
 	for n, tn := range names {
 		if n != drop {
 			stmt(tn)
-			if r.Chance(1, 2) {
-				stmt(tn)
-			}
+			stmt(tn)
 		}
+	}
+	sc.Steps = []atrun.Step{{Op: "gtx", Steps: body}}
+	return sc, meta
+}
+
+// autostepScenario (C18): multi-row INSERTs whose keys the database generates, with the session's
+// auto_increment_increment changed between them.
+func autostepScenario(r *hutil.Rng, i int) (atrun.Scenario, Meta) {
+	g0 = &genState{}
+	t := mkTable(r, 0, false)
+	onlyCare := r.Chance(1, 2)
+	sc := atrun.Scenario{Name: fmt.Sprintf("c18-autostep-%d", i), Setup: append([]string{t.ddl}, t.setup...)}
+	sc.Config.OnlyCareUpdateColumns = &onlyCare
+	steps := []int{1, 2, 3, 5}
+	cur := steps[r.Intn(4)]
+	sc.Config.AutoIncrementIncrement = cur
+	meta := Meta{Stream: "clean", Table: t.name, Cols: t.cols, PK: t.pk, AutoInc: true, OnlyCare: onlyCare, Extra: map[string]string{"shape": "autostep"}}
+	body := []atrun.Step{{Op: "dump", Tables: []string{t.name}}}
+	for s, n := 0, 2+r.Intn(2); s < n; s++ {
+		if s > 0 {
+			for nx := steps[r.Intn(4)]; ; nx = steps[r.Intn(4)] {
+				if nx != cur {
+					cur = nx
+					break
+				}
+			}
+			body = append(body, atrun.Step{Op: "db_autoinc", N: cur})
+		}
+		sql, sm := genInsert(r, &t, stmtOpt{insMode: "gen-batch"})
+		sm.Step = cur
+		sm.DumpPre = fmt.Sprintf("0.%d", lastDump(body))
+		sm.Path = fmt.Sprintf("0.%d", len(body))
+		body = append(body, atrun.Step{Op: "exec", SQL: sql, Args: sm.Args})
+		sm.DumpPost = fmt.Sprintf("0.%d", len(body))
+		body = append(body, atrun.Step{Op: "dump", Tables: []string{t.name}})
+		meta.Stmts = append(meta.Stmts, sm)
 	}
 	sc.Steps = []atrun.Step{{Op: "gtx", Steps: body}}
 	return sc, meta
